@@ -493,4 +493,37 @@ def valiasLocal (a b : α) (ys : List (List α)) : List (List α) :=
     let r2 := vScale r1 b
     compMul r2 r2
 
+
+/-! ### Asynchronous reductions (`Gate::dot_async` / `sum_async` / `min_async` / `max_async` / `norm2_async`,
+`Global::Vector::dot_async` / `norm2sqr_async` / `norm2_async` / `*_element_async`) as used by the pipelined solvers.
+
+`Gate::dot_async(x, y, sqrt)` is `sum_async(_freqs.triple_dot(x, y), sqrt)`: unlike the synchronous `Gate::dot`
+it has no special case for gates without neighbours, the local part is always the frequency-weighted triple
+product; the ticket's `wait()` returns the all-reduced sum, or its square root if the `sqrt` flag was set. -/
+
+/-- local part of `Gate::dot_async` -/
+def gdotAsyncLocal (p : Patch) (x y : List α) : α := tripleDot (freqs p) x y
+
+/-- `Gate::dot_async(x, y, sqrt).wait()` / `Global::Vector::dot_async` / `norm2sqr_async` (`sqrt = none`) /
+`norm2_async` (`sqrt = some f`, `y = x`) -/
+def gdotAsync (sqrt : Option (α → α)) (ps : List Patch) (xs ys : List (List α)) : α :=
+  let s := allSum ((List.range ps.length).map fun r =>
+    gdotAsyncLocal (ps.getD r default) (xs.getD r []) (ys.getD r []))
+  match sqrt with
+  | some f => f s
+  | none => s
+
+def gnorm2sqrAsync (ps : List Patch) (xs : List (List α)) : α := gdotAsync none ps xs xs
+def gnorm2Async (sqrt : α → α) (ps : List Patch) (xs : List (List α)) : α := gdotAsync (some sqrt) ps xs xs
+
+/-- `Gate::sum_async(x, sqrt).wait()` -/
+def sumAsync (sqrt : Option (α → α)) (l : List α) : α :=
+  match sqrt with
+  | some f => f (allSum l)
+  | none => allSum l
+
+/-- what a reduction computes that combines the *unweighted* local squared norms: every DOF shared by `k`
+patches is counted `k` times (this is NOT the global norm, see `C13.unweightedNormSqr_eq`) -/
+def unweightedNormSqr (xs : List (List α)) : α := allSum (xs.map fun x => dotLocal x x)
+
 end FeatModel.Dist
